@@ -301,7 +301,12 @@ func (rl *Shell) yankNthArg() {
 
 	// Abort if the required position is out of bounds.
 	argNth := rl.Iterations.Get()
-	if len(words) < argNth {
+	if argNth < 0 {
+		// A negative argument counts from the end of the line.
+		argNth = len(words) + argNth + 1
+	}
+
+	if argNth < 1 || len(words) < argNth {
 		return
 	}
 
